@@ -167,6 +167,10 @@ Proof. exact never_declared. Qed.
 (* nothing else: the table never changes the set of declarations *)
 Theorem C18_declared_frame : forall m all sites, declared m all sites = declared [] all sites.
 Proof. exact declared_frame. Qed.
+(* nothing else is declared: a declared name is a project struct or enum reachable from a site through field types *)
+Theorem C18_declared_reachable : forall m all sites n, In n (declared m all sites) ->
+  In n (map s_name all) /\ reach all (flat_map refs sites) n.
+Proof. exact declared_reachable. Qed.
 (* inside the class the defect is general: a project struct or enum that a site names is declared whatever
    the table says (C18-4), with the computed witness struct Timestamp as a parameter, Timestamp -> string:
    rendered string, still declared, in Zod mode with TimestampSchema *)
@@ -247,6 +251,7 @@ Print Assumptions C18_render_subst_tokens.
 Print Assumptions C18_relational_unqualified_sites.
 Print Assumptions C18_never_declared.
 Print Assumptions C18_declared_frame.
+Print Assumptions C18_declared_reachable.
 Print Assumptions C18_mapped_struct_declared.
 Print Assumptions C18_never_declared_refuted.
 Print Assumptions C18_decl_oracle_exact.
